@@ -160,3 +160,69 @@ func (c *Ctx) ThroughLoop(construct string, rl *RangeLoop, sink FlowPoint) bool 
 	c.Holds(construct, sink.Pos(), "the verdict is only reachable through the loop's exhaustion exit")
 	return true
 }
+
+// ForLoops finds the explicit `for init; cond; post {}` loops of fn as lowered by go/ssa
+// (blocks commented for.loop / for.body / for.done); Index is the loop-carried value compared
+// in the condition when it has that shape.
+func ForLoops(fn *ssa.Function) []*RangeLoop {
+	var out []*RangeLoop
+	for _, b := range fn.Blocks {
+		if b.Comment != "for.loop" || len(b.Instrs) == 0 || len(b.Succs) != 2 {
+			continue
+		}
+		iff, ok := b.Instrs[len(b.Instrs)-1].(*ssa.If)
+		if !ok {
+			continue
+		}
+		rl := &RangeLoop{Fn: fn, Header: b, Body: b.Succs[0], Done: b.Succs[1], Kind: "for"}
+		if cmp, ok := iff.Cond.(*ssa.BinOp); ok {
+			if _, isPhi := cmp.X.(*ssa.Phi); isPhi {
+				rl.Index = cmp.X
+			}
+		}
+		out = append(out, rl)
+	}
+	return out
+}
+
+// LoopContaining returns the innermost loop (range or for) whose body dominates the block of in.
+func LoopContaining(fn *ssa.Function, in ssa.Instruction) *RangeLoop {
+	var best *RangeLoop
+	for _, rl := range append(RangeLoops(fn), ForLoops(fn)...) {
+		if rl.Body.Dominates(in.Block()) && (best == nil || best.Body.Dominates(rl.Header)) {
+			best = rl
+		}
+	}
+	return best
+}
+
+// SkipsOnlyAcross: within one iteration of rl, the next iteration can be reached without
+// executing an instruction satisfying act only across an edge establishing one of the atoms;
+// and the loop is never left early (break) except by returning.
+func (c *Ctx) SkipsOnlyAcross(construct string, rl *RangeLoop, act func(ssa.Instruction) bool, actName string, skip Clause, allowBreak bool) bool {
+	c.touch(rl.Fn)
+	pos := rl.Body.Instrs[0].Pos()
+	gate := AtomEdges(skip...)
+	q := ReachQ{Fn: rl.Fn, From: &Loc{rl.Body, -1}, CutInstr: act,
+		CutEdge:  func(b *ssa.BasicBlock, s int) bool { return gate(b, s) || b.Succs[s] == rl.Done },
+		SinkEdge: func(b *ssa.BasicBlock, s int) bool { return b.Succs[s] == rl.Header }}
+	r := q.Run()
+	c.cur.Blocks += r.Blocks
+	c.cur.Edges += r.Edges
+	if r.Found {
+		c.Violated(construct, pos, fmt.Sprintf("in %s an element can be passed over without %s and without [%s]; path: %s", SSAFuncName(rl.Fn), actName, skip, c.P.PathString(r.Path)))
+		return false
+	}
+	if !allowBreak {
+		q2 := ReachQ{Fn: rl.Fn, From: &Loc{rl.Body, -1},
+			CutEdge:  func(b *ssa.BasicBlock, s int) bool { return b == rl.Header },
+			SinkEdge: func(b *ssa.BasicBlock, s int) bool { return b != rl.Header && b.Succs[s] == rl.Done }}
+		r2 := q2.Run()
+		if r2.Found {
+			c.Violated(construct, pos, fmt.Sprintf("in %s the loop can be left early (break) before every element was considered; path: %s", SSAFuncName(rl.Fn), c.P.PathString(r2.Path)))
+			return false
+		}
+	}
+	c.Holds(construct, pos, "every element either gets "+actName+" or is skipped across ["+skip.String()+"]; no early exit")
+	return true
+}
